@@ -221,4 +221,24 @@ def Nest.typed : Nest → Bool
     type has a processor (`context.get_result_processor(type_, …)`) -/
 def Nest.procCount (e : Nest) : Nat := if e.typed then 1 else 0
 
+/-! ### bind processors of an expanded IN parameter; the primary key an INSERT reports
+
+  lib/sqlalchemy/sql/compiler.py  SQLCompiler._process_parameters_for_postcompile
+                                  SQLCompiler._inserted_primary_key_from_lastrowid_getter -/
+
+/-- `_bind_processors` is keyed by the *unescaped* bind name; an expanding bind `name` whose DBAPI
+    name is `esc` becomes `esc_1 … esc_n`, each element getting `single_processors[name]`.
+    Result: processors keyed by (escaped name, element number). -/
+def expandBind (procs : List (Nat × Nat)) (name esc n : Nat) : List ((Nat × Nat) × Nat) :=
+  match procs.lookup name with
+  | some p => (List.range n).map (fun j => ((esc, j + 1), p))
+  | none => []
+
+/-- `get(lastrowid, parameters)`: `cursor.lastrowid` goes through the pk type's result
+    processor; a non-None pk passed in the parameters wins and is returned untouched -/
+def insertedPk (proc : Int → Int) (explicitParam : Option Int) (lastrowid : Int) : Int :=
+  match explicitParam with
+  | some v => v
+  | none => proc lastrowid
+
 end SaVerif.Types
